@@ -536,7 +536,12 @@ class Polyhedron(Shape3D):
         if centered:
             simplices -= self.center
 
-        volumes = np.abs(np.linalg.det(simplices) / 6)
+        # The tetrahedra spanned by the surface triangles and the origin must be
+        # counted with their sign, otherwise solids that are not star-shaped about
+        # the origin (U-shapes, frames) are over-counted.
+        volumes = np.linalg.det(simplices) / 6
+        if np.sum(volumes) < 0:
+            volumes = -volumes
 
         def triangle_integrate(f):
             r"""Integrate f over the simplices.
